@@ -1147,6 +1147,13 @@ class ExprMixin:
         """returns (return values, state after normal return or None)"""
         qual = f.qual
         if qual in self.INTRINSICS:
+            # the summaries read their arguments by position: bind keyword arguments by the callee's signature first
+            plist = [x.arg for x in f.node.args.posonlyargs + f.node.args.args]
+            if plist and plist[0] in ("self", "cls") and not (args and any(tag(t) == "self" for t in args[0])):
+                plist = plist[1:]
+            args, kw = list(args), dict(kw)
+            while len(args) < len(plist) and plist[len(args)] in kw:
+                args.append(kw.pop(plist[len(args)]))
             return self.intrinsic(f, args, kw, st, frame, node, out)
         if frame.depth + 1 > DEPTH_BOUND:
             raise AnalysisError(f"call chain deeper than {DEPTH_BOUND} at {self.p.loc(frame.func, node)}: {' > '.join(frame.ctx)}")
